@@ -24,7 +24,11 @@ pub enum Value {
 impl Display for Value {
     fn fmt(&self, formatter: &mut std::fmt::Formatter<'_>) -> std::fmt::Result {
         match self {
-            Value::String(value) => write!(formatter, "\"{value}\""),
+            Value::String(value) => write!(
+                formatter,
+                "\"{}\"",
+                value.replace('\\', "\\\\").replace('"', "\\\"")
+            ),
             Value::Int(value) => write!(formatter, "i{value}"),
             Value::Float(value) => write!(formatter, "f{value}"),
             Value::Decimal(value) => write!(formatter, "d{value}"),
